@@ -93,6 +93,11 @@ func nidCl(nid string) bool {
 	}
 	nid = strings.ToLower(nid)
 	nid = nonDigitOrK.ReplaceAllString(nid, "")
+	// the length was checked on the raw text: what is left after dropping the separators may be
+	// too short to hold a number and its check digit (or empty)
+	if len(nid) < 2 {
+		return false
+	}
 	rut, _ := strconv.Atoi(nid[:len(nid)-1])
 	dv := nid[len(nid)-1:]
 
